@@ -853,10 +853,12 @@ func (rt *runtime) cmplRunOrEval(src, sm interface{}, eval bool) (Value, error) 
 	if err != nil {
 		return result, err
 	}
-	if node == nil {
-		node = cmplParse(program)
-	}
 	err = catchPanic(func() {
+		if node == nil {
+			// An *ast.Program handed in by the caller: if it holds the parser's placeholders for a
+			// syntax error, compiling it throws a SyntaxError.
+			node = cmplParse(program)
+		}
 		result = rt.cmplEvaluateNodeProgram(node, eval)
 	})
 	switch result.kind {
